@@ -67,7 +67,13 @@ def key_of(p):
 @st.composite
 def strategy_(draw, tier):
     d = D(draw)
-    refd = refgen.gen_reference(d, n_genes=(1, 2), max_tx=2, p_coding=0.9, p_nf=0.1)
+    refd = refgen.gen_reference(d, n_genes=(1, 2), max_tx=2, p_coding=0.9, p_nf=0.25)
+    # 5'-incomplete proteins are written with a leading X in real proteome files
+    ref0 = Ref(refd)
+    for g in refd['genes']:
+        for t in g['txs']:
+            if t.get('cds') and 'cds_start_NF' in t.get('tags', []) and d.chance(0.7):
+                t['protein'] = 'X' * d.randint(1, 2) + ref0.protein(t['id'])
     ops = [['gen', d.randint(0, len(PARAMS) - 1), False]]
     for _ in range(d.randint(2, 8)):
         r = d.rng.random()
